@@ -207,6 +207,17 @@ _FORCE_KINDS = ["file", "block", "group", "data_array", "tag", "multi_tag", "sou
                 "subsection", "property"]
 
 
+def _other_handles(E):
+    """a second, independently obtained handle for every entity of the fixture"""
+    f = E["file"]
+    b = f.blocks["blk"]
+    return {"file": f, "block": b, "block2": f.blocks["blk2"], "data_array": b.data_arrays["da"],
+            "da2": b.multi_tags["mt"].positions, "da3": b.data_arrays["da3"], "tag": b.tags["tg"],
+            "feature": b.tags["tg"].features[0], "multi_tag": b.multi_tags["mt"], "group": b.groups["grp"],
+            "source": b.sources["src"], "section": f.sections["sec"],
+            "subsection": f.sections["sec"].sections["sub"], "property": f.sections["sec"].props["p"]}
+
+
 def _ob_force(t: int, u: int, ki: int, c0: int) -> bool:
     """
     pre: 0 <= ki < 10
@@ -217,8 +228,13 @@ def _ob_force(t: int, u: int, ki: int, c0: int) -> bool:
     E = _fixture(True, PATH)
     kind = _pick(_FORCE_KINDS, ki)
     before = _stamps(E)
+    E2 = _other_handles(E)
+    if _stamps(E2) != before:                # (also warms any per-handle state)
+        return False
     E[kind].force_created_at(t)
     E[kind].force_updated_at(u)
+    if _stamps(E2) != _stamps(E):            # every handle of an entity reads the same stamps
+        return False
     after = _stamps(E)
     for k in before:
         if k == kind:
